@@ -210,8 +210,15 @@ func genSpec(r *vh.Rand, o genOpts) (tables, reqs, scens string, info genInfo) {
 		tmpl := "-"
 		if r.Chance(1, 4) {
 			tmpl = "R:" + other()
-		} else if o.failures && r.Chance(1, 18) {
-			tmpl = "E"
+		} else if r.Chance(1, 8) {
+			tmpl = "X:" + other() // fails once that request has captured tok in this shot
+		} else if o.failures && r.Chance(1, 9) {
+			tmpl = r.Pick([]string{"E", "EH", "EU", "EU", "EB", "EB"})
+		}
+		if r.Chance(1, 5) {
+			tmpl += "!h"
+		} else if r.Chance(1, 10) {
+			tmpl += "!t"
 		}
 		j := func(x []string) string {
 			if len(x) == 0 {
